@@ -18,6 +18,10 @@ Item    (script order matters):
   ('bid', ctx, control, [targets], period|None)
   ('fiat', ctx, kind, target)               kind in ready,start,run,stop,abort
   ('put', ctx, value, path) / ('inc', ctx, path, value) / ('copy', ctx, src, dst)
+  ('putf', ctx, [(field, value)...], path)   put f1 v1 f2 v2 into path   (path must not have a 'value' field)
+  ('copyf', ctx, [srcfields], src, [dstfields], dst) / ('incf', ctx, field, path, value)
+  ('set', ctx, path, value) / ('setfrom', ctx, path, srcpath)      goal verbs (behave like put / copy)
+  need ('cmpf', field, path, op, goal, tol|None, neg)            field in path op goal
   ('auxclone', moot name, tag | 'mine')     aux <moot> as <tag>          (clone of a moot framer)
   ('rear', ctx, moot name, frame)           rear <moot> as mine be aux in frame <frame>
   ('raze', ctx, 'all'|'first'|'last', frame|None)
@@ -57,6 +61,12 @@ def emit_need(n):
     if k == "cmp":
         _, path, op, goal, tol, _neg = n
         s = "%s %s %s" % (path, op, lit(goal))
+        if tol is not None:
+            s += " +- %s" % lit(tol)
+        return neg + s
+    if k == "cmpf":
+        _, field, path, op, goal, tol, _neg = n
+        s = "%s in %s %s %s" % (field, path, op, lit(goal))
         if tol is not None:
             s += " +- %s" % lit(tol)
         return neg + s
@@ -145,6 +155,16 @@ def emit_item(it, ind):
         ctxline(it[1], "inc %s with %s" % (it[2], lit(it[3])))
     elif k == "copy":
         ctxline(it[1], "copy %s into %s" % (it[2], it[3]))
+    elif k == "putf":
+        ctxline(it[1], "put %s into %s" % (" ".join("%s %s" % (f, lit(v)) for f, v in it[2]), it[3]))
+    elif k == "copyf":
+        ctxline(it[1], "copy %s in %s into %s in %s" % (" ".join(it[2]), it[3], " ".join(it[4]), it[5]))
+    elif k == "incf":
+        ctxline(it[1], "inc %s in %s with %s" % (it[2], it[3], lit(it[4])))
+    elif k == "set":
+        ctxline(it[1], "set %s with %s" % (it[2], lit(it[3])))
+    elif k == "setfrom":
+        ctxline(it[1], "set %s from %s" % (it[2], it[3]))
     else:
         raise ValueError("unknown item %r" % (it,))
     return out
@@ -153,7 +173,10 @@ def emit_item(it, ind):
 def emit(prog, house="h"):
     lines = ["house %s" % house]
     for path, value in prog.get("inits", []):
-        lines.append("  init %s with %s" % (path, lit(value)))
+        if isinstance(value, dict):
+            lines.append("  init %s with %s" % (path, " ".join("%s %s" % (f, lit(v)) for f, v in value.items())))
+        else:
+            lines.append("  init %s with %s" % (path, lit(value)))
     for fm in prog["framers"]:
         s = "  framer %s be %s" % (fm["name"], fm.get("schedule", "active"))
         if fm.get("order", "mid") != "mid":
@@ -284,6 +307,8 @@ def resolve_rel(path, fm, fr, mainfm, mainfr):
 def _subst_need(n, ctx):
     if n[0] in ("cmp", "bool", "updated", "changed"):
         return (n[0], resolve_rel(n[1], *ctx)) + tuple(n[2:])
+    if n[0] == "cmpf":
+        return (n[0], n[1], resolve_rel(n[2], *ctx)) + tuple(n[3:])
     if n[0] == "cmpi":
         return (n[0], resolve_rel(n[1], *ctx), n[2], resolve_rel(n[3], *ctx)) + tuple(n[4:])
     return n
@@ -303,6 +328,16 @@ def _subst_item(it, ctx):
         return ("inc", it[1], resolve_rel(it[2], *ctx), it[3])
     if k == "copy":
         return ("copy", it[1], resolve_rel(it[2], *ctx), resolve_rel(it[3], *ctx))
+    if k == "putf":
+        return ("putf", it[1], it[2], resolve_rel(it[3], *ctx))
+    if k == "copyf":
+        return ("copyf", it[1], it[2], resolve_rel(it[3], *ctx), it[4], resolve_rel(it[5], *ctx))
+    if k == "incf":
+        return ("incf", it[1], it[2], resolve_rel(it[3], *ctx), it[4])
+    if k == "set":
+        return ("set", it[1], resolve_rel(it[2], *ctx), it[3])
+    if k == "setfrom":
+        return ("setfrom", it[1], resolve_rel(it[2], *ctx), resolve_rel(it[3], *ctx))
     return it
 
 
